@@ -29,9 +29,14 @@ Theorem C07_stored_is_lookup : forall W ops, all_ok W ops init = true ->
   (forall o d t ids, ca s o = Some d -> In (t, ids) d -> ids = cin W o t).
 Proof. exact reachable_truth. Qed.
 
-(* assigning everything (time_steps=None, obstacle_ids=None) never raises and stores the lookup result
-   for every contained obstacle at every time step of its horizon *)
-Theorem C07_assign_all_complete : forall W ops, all_ok W ops init = true ->
+(* assign_obstacles_to_lanelets never raises, whatever time_steps / obstacle_ids / use_center_only
+   (time steps outside an obstacle's horizon are skipped) *)
+Theorem C07_assign_never_raises : forall W ts ids c s, snd (assign W ts ids c s) = Done.
+Proof. exact assign_done. Qed.
+
+(* assigning everything (time_steps=None, obstacle_ids=None) stores the lookup result for every contained
+   obstacle at every time step of its horizon ([wf]: no prediction ends before the initial time step) *)
+Theorem C07_assign_all_complete : forall W ops, wf W -> all_ok W ops init = true ->
   let s := run W ops init in
   let r := assign W None None false s in
   snd r = Done /\
@@ -61,17 +66,26 @@ Example C07_nonvacuous :
               sm := fun o t => if o =? 30 then [1; 2] else if t =? 1 then [1; 2] else if t <=? 1 then [1] else [2] |} in
   let ops := [OAdd 30; OAdd 31; OAssign None None false] in
   let s := run W ops init in
-  all_ok W ops init = true /\ forallb default_mode ops = true /\
+  all_ok W ops init = true /\ forallb default_mode ops = true /\ wf W /\
   sreg s 1 = [30] /\ sreg s 2 = [30] /\ ish s 30 = Some [1; 2] /\ ic s 30 = Some [1] /\
   dreg s 2 1 = Some [31] /\ dreg s 1 2 = None /\ sa s 31 = Some [(0, [1]); (1, [1; 2]); (2, [2])] /\
   remove_obstacle W 30 s = (fst (remove_obstacle W 30 s), Done) /\
   sreg (fst (remove_obstacle W 30 s)) 2 = [] /\
   dreg (fst (remove_obstacle W 31 s)) 2 1 = Some [].
-Proof. vm_compute. repeat split; reflexivity. Qed.
+Proof.
+  assert (Hwf : wf {| kind := fun o => if o =? 31 then Dynamic else Static; t0 := fun _ => 0;
+                      tf := fun o => if o =? 31 then Some 2 else None;
+                      cin := fun o t => if o =? 30 then [1] else if t <=? 1 then [1] else [2];
+                      sm := fun o t => if o =? 30 then [1; 2] else if t =? 1 then [1; 2] else if t <=? 1 then [1] else [2] |}).
+  { intros o f. simpl. destruct (o =? 31); [intro H; inversion H; subst; cbv; discriminate | discriminate]. }
+  split; [vm_compute; reflexivity|]. split; [vm_compute; reflexivity|]. split; [exact Hwf|].
+  vm_compute. repeat split; reflexivity.
+Qed.
 
 Print Assumptions C07_registries_inverse.
 Print Assumptions C07_registries_consistent.
 Print Assumptions C07_stored_is_lookup.
+Print Assumptions C07_assign_never_raises.
 Print Assumptions C07_assign_all_complete.
 Print Assumptions C07_remove_never_fails.
 Print Assumptions C07_remove_clears.
